@@ -112,11 +112,11 @@ pub fn prepare_to_read_rdata(
     cursor: usize,
     rdlength: u16,
 ) -> Result<&[u8], ReadRdataError> {
-    let end = cursor + rdlength as usize;
-    if end > message.len() {
-        Err(ReadRdataError::UnexpectedEom)
-    } else {
-        Ok(&message[..end])
+    // NOTE: `cursor` comes from the caller and may be arbitrarily large,
+    // so the end of the RDATA is computed with overflow checking.
+    match cursor.checked_add(rdlength as usize) {
+        Some(end) if end <= message.len() => Ok(&message[..end]),
+        _ => Err(ReadRdataError::UnexpectedEom),
     }
 }
 
